@@ -435,7 +435,83 @@ func SafeCheck[C any](s *Sub[C], c C) (err error) {
 		AbortCase(s, c, Errf("the case did not return within %v (cases of this sub-check take milliseconds to seconds): the code under test does not terminate on it, or takes orders of magnitude longer than on its neighbours", limit))
 	})
 	defer disarm()
-	return s.Check(c)
+	err = s.Check(c)
+	if err == nil {
+		if herr := verifyHeld(); herr != nil {
+			// depends on the cases before this one (they are in the replay file): not something to shrink
+			AbortCase(s, c, herr)
+		}
+	}
+	return err
+}
+
+// Recycled calls use(i, build(i)) for i = 0 .. n-1 and collects garbage after each call. build returns a fresh value
+// each time - same size, other content - to which nothing else refers, so that each value is likely to be laid into the
+// memory its predecessor has just left: what the code under test remembers about an argument must not be tied to where
+// the argument happened to lie (an address, a string header, %p).
+func Recycled(n int, build func(i int) string, use func(i int, s string) error) error {
+	for i := 0; i < n; i++ {
+		if err := func() error { return use(i, build(i)) }(); err != nil {
+			return err
+		}
+		runtime.GC()
+	}
+	Count("fresh same-size arguments used one after the other with a garbage collection in between", int64(n))
+	return nil
+}
+
+// Hold keeps a result of the code under test beyond the case that obtained it: verify compares the live result with
+// what it has to be (an independent expectation, or a deep copy taken when it was returned). After each of the next
+// cases of the process has been judged, every held result is verified again: a result belongs to the caller for as
+// long as he keeps it, whatever the library is asked to do next - in particular when it hands its results out of pooled
+// or recycled memory. At most six results are held; the oldest makes room.
+func Hold(what string, verify func() error) {
+	Count("results held beyond their case and looked at again after each of the next cases", 1)
+	held.mu.Lock()
+	defer held.mu.Unlock()
+	if len(held.list) >= 6 {
+		held.list = held.list[1:]
+	}
+	held.list = append(held.list, heldResult{what, verify})
+	held.registered++
+}
+
+type heldResult struct {
+	what   string
+	verify func() error
+}
+
+var held struct {
+	mu         sync.Mutex
+	list       []heldResult
+	registered int64
+	verified   int64
+}
+
+func verifyHeld() error {
+	held.mu.Lock()
+	list := append([]heldResult{}, held.list...)
+	held.mu.Unlock()
+	for _, h := range list {
+		err := func() (err error) {
+			defer func() {
+				if r := recover(); r != nil {
+					err = fmt.Errorf("panic while looking at it: %v", r)
+				}
+			}()
+			return h.verify()
+		}()
+		held.mu.Lock()
+		held.verified++
+		held.mu.Unlock()
+		if err != nil {
+			held.mu.Lock()
+			held.list = nil
+			held.mu.Unlock()
+			return Errf("a result handed out to an earlier case and still held (%s) is no longer what it was, now that this case has run: %v", h.what, err)
+		}
+	}
+	return nil
 }
 
 // A case that does not come back is a result too: the watchdog below turns it into a replay file and a failed
@@ -671,17 +747,22 @@ func Slack() float64 {
 	return math.Max(1, 2*load/float64(runtime.NumCPU()))
 }
 
-// After is time.After with the limit stretched by Slack, which is looked at again whenever the limit seems to have passed.
+// After is time.After with the limit stretched by Slack, which is looked at again whenever the limit seems to have
+// passed. It is built on runtime timers (time.AfterFunc), not on a sleeping goroutine per call: the first version kept
+// one goroutine alive for the whole limit of every call, hundreds of thousands of them in a thorough run, and under the
+// race detector that cost gigabytes per process (thorough run #13: the kernel killed C09 and C20 shards, exit 2).
 func After(d time.Duration) <-chan time.Time {
 	ch := make(chan time.Time, 1)
 	start := time.Now()
-	go func() {
-		time.Sleep(d)
-		for time.Since(start) < time.Duration(float64(d)*Slack()) {
-			time.Sleep(time.Second)
+	var look func()
+	look = func() {
+		if time.Since(start) >= time.Duration(float64(d)*Slack()) {
+			ch <- time.Now()
+			return
 		}
-		ch <- time.Now()
-	}()
+		time.AfterFunc(time.Second, look)
+	}
+	time.AfterFunc(d, look)
 	return ch
 }
 
